@@ -38,18 +38,23 @@ def reference(ctx, case, paths, section):
     return text
 
 
-def scripted(ctx, section, case, paths, ref, cores, bs, runs, budget, default_labels=None):
-    """runs: iterable of (outcome, text, detail, labels, world)"""
+fmt = L.fmt_script
+
+
+def scripted(ctx, section, case, paths, ref, cores, bs, runs, budget, default_labels=None, deadline=None):
+    """runs: iterable of (outcome, text, detail, labels, world) -> number of runs, or -number when cut by the deadline"""
     n = 0
     for outcome, text, detail, labels, w in runs:
         n += 1
+        if deadline is not None and n % 128 == 0 and ctx.out_of_time(deadline):
+            return -n
         if default_labels is not None and not default_labels:
             default_labels.extend(labels)
         ctx.case(section, (cores, bs, len(case["gaf"]), tuple(labels)), nontrivial=(default_labels is None or labels != default_labels),
                  sample={"cores": cores, "batch_size": bs, "records": len(case["gaf"]), "script": " ".join(labels)})
         what = judge(case, ref, outcome, text, detail)
         if what:
-            ctx.fail(section, "cores=%d batch=%d records=%d schedule [%s]: %s" % (cores, bs, len(case["gaf"]), " ".join(labels), what),
+            ctx.fail(section, "cores=%d batch=%d records=%d schedule [%s]: %s" % (cores, bs, len(case["gaf"]), fmt(labels), what),
                      dict(case, kind="scripted", cores=cores, batch_size=bs, script=labels, budget=budget))
     return n
 
@@ -115,52 +120,57 @@ def run(ctx):
         if not ok:
             ctx.fail("regression", "%s: %s" % (name, detail), {"kind": "defect", "name": name})
     quick = ctx.quick
-    t_budget = 70 if quick else 800
+    t_budget = 60 if quick else 780
     # ---- (a) scripted schedules -----------------------------------------------------------------
     single = L.configs_single_group()
-    ctx.bound("scripted schedules, one group: (cores, batch, records) in %s i.e. <= 3 workers x <= 2 records, both collection loops; "
-              "every script over {d<k>, e, a<k>, x<k>} with at most T timeouts-while-items-remain (forced timeouts on an empty queue are free) "
-              "and at most 6 'still alive' answers: T<=1 exhaustive for every configuration%s; beyond that random scripts with T<=4"
-              % ([c[:3] for c in single], " (3 workers x 2 records: first %d scripts in quick)" % 4000 if quick else
-                 ", T<=2 exhaustive where the tree has < 150000 scripts"))
-    complete = True
-    for cores, bs, n, loop in single:
-        case = L.make_input(rng, n, cheap=True)
-        paths = L.write_case(ctx.dir("c11"), case)
-        ref = reference(ctx, case, paths, "single-core")
-        if ref is None:
-            continue
-        big = cores == 3 and bs == 2 and n >= 5
-        budget = {"max_empty": 1}
-        dl = []
-        k = scripted(ctx, "scripted-exhaustive", case, paths, ref, cores, bs,
-                     L.explore(paths, cores, bs, limit=4000 if (quick and big) else None, **budget), budget, dl)
-        if quick and big and k >= 4000:
-            complete = False
-        if not quick and not ctx.out_of_time(t_budget * 0.6):
-            budget = {"max_empty": 2}
-            k = scripted(ctx, "scripted-exhaustive-T2", case, paths, ref, cores, bs,
-                         L.explore(paths, cores, bs, limit=150000 if not big else 20000, **budget), budget, dl)
-        budget = {"max_empty": 4, "max_alive": 8}
-        scripted(ctx, "scripted-sampled", case, paths, ref, cores, bs,
-                 sampled_runs(rng, paths, cores, bs, 150 if quick else 3000, budget), budget, dl)
-    ctx.exhaustive = complete
     two = L.configs_two_groups()
-    ctx.bound("scripted schedules, several groups: (cores, batch, records) in %s: T<=1 exhaustive up to %d scripts each + random scripts"
-              % ([c[:3] for c in two], 1500 if quick else 60000))
-    for cores, bs, n, loop in two:
-        if ctx.out_of_time(t_budget * 0.8):
-            break
+    big_lim = 10000 if quick else None
+    grp_lim = 1500 if quick else 60000
+    ctx.bound("scripted schedules, one group: (cores, batch, records) in %s i.e. <= 3 workers x <= 2 records, both collection loops of realign_gaf; "
+              "every script over {d<k>, e, a<k>, x<k>} with at most T timeouts-while-items-remain (forced timeouts on an empty queue are free) "
+              "and at most 6 'still alive' answers: T<=1 exhaustive for every configuration%s; %s random scripts per configuration with T<=4 and <= 8 "
+              "'still alive' answers" % ([c[:3] for c in single], " except 3 workers x 2 records (first %d scripts in depth-first order)" % big_lim if quick else
+                                       "; T<=2 exhaustive, smallest trees first, up to 150000 scripts per configuration, while time allows", 150 if quick else 3000))
+    ctx.bound("scripted schedules, several groups: (cores, batch, records) in %s: T<=1 depth-first up to %d scripts each + %d random scripts each"
+              % ([c[:3] for c in two], grp_lim, 100 if quick else 2000))
+    prepared = []
+    for cores, bs, n, loop in single + two:
         case = L.make_input(rng, n, cheap=True)
         paths = L.write_case(ctx.dir("c11"), case)
         ref = reference(ctx, case, paths, "single-core")
-        if ref is None:
-            continue
-        dl = []
+        if ref is not None:
+            prepared.append({"cfg": (cores, bs, n), "case": case, "paths": paths, "ref": ref, "dl": [], "single": (cores, bs, n, loop) in single,
+                             "big": cores == 3 and bs == 2 and n >= 5, "t1": 0})
+    complete = len(prepared) == len(single + two)
+    # phase 1: T <= 1, every configuration
+    for c in prepared:
+        cores, bs, n = c["cfg"]
         budget = {"max_empty": 1}
-        scripted(ctx, "scripted-groups", case, paths, ref, cores, bs, L.explore(paths, cores, bs, limit=1500 if quick else 60000, **budget), budget, dl)
+        lim = (big_lim if c["big"] else None) if c["single"] else grp_lim
+        k = scripted(ctx, "scripted-exhaustive" if c["single"] else "scripted-groups", c["case"], c["paths"], c["ref"], cores, bs,
+                     L.explore(c["paths"], cores, bs, limit=lim, **budget), budget, c["dl"], deadline=t_budget * 0.75)
+        c["t1"] = abs(k)
+        if c["single"] and (k < 0 or (lim is not None and k >= lim)):
+            complete = False
+    ctx.exhaustive = complete
+    # phase 2 (thorough): T <= 2 on the one-group configurations, smallest trees first
+    if not quick:
+        for c in sorted([c for c in prepared if c["single"]], key=lambda c: c["t1"]):
+            if ctx.out_of_time(t_budget * 0.6):
+                break
+            cores, bs, n = c["cfg"]
+            budget = {"max_empty": 2}
+            scripted(ctx, "scripted-exhaustive-T2", c["case"], c["paths"], c["ref"], cores, bs,
+                     L.explore(c["paths"], cores, bs, limit=150000, **budget), budget, c["dl"], deadline=t_budget * 0.7)
+    # phase 3: random scripts with more timeouts
+    for c in prepared:
+        if ctx.out_of_time(t_budget * 0.85):
+            break
+        cores, bs, n = c["cfg"]
         budget = {"max_empty": 4, "max_alive": 8}
-        scripted(ctx, "scripted-groups-sampled", case, paths, ref, cores, bs, sampled_runs(rng, paths, cores, bs, 100 if quick else 2000, budget), budget, dl)
+        nrun = (150 if quick else 3000) if c["single"] else (100 if quick else 2000)
+        scripted(ctx, "scripted-sampled" if c["single"] else "scripted-groups-sampled", c["case"], c["paths"], c["ref"], cores, bs,
+                 sampled_runs(rng, c["paths"], cores, bs, nrun, budget), budget, c["dl"], deadline=t_budget * 0.9)
     # ---- (b) real processes ---------------------------------------------------------------------
     n_inputs = 1 if quick else 6
     ctx.bound("real worker processes: %d inputs of 7-13 records x cores {1,2,4} x batch size {1,2,3} in-process, the CLI in a subprocess, "
@@ -177,7 +187,7 @@ def run(ctx):
                 real_run(ctx, "real-mp", case, paths, ref, cores, bs)
         cli_run(ctx, "real-cli", case, paths, ref, 2 if i % 2 == 0 else 4, 1 + i % 3)
     # sleeping workers: cores=2, batch=2, 5 records -> group of 2 workers (loop with 0.5 s timeout) + leftover worker (0.1 s timeout)
-    slow = [{"0": 0.6, "4": 0.15}, {"s2": 0.6, "s4": 0.15}, {"3": 0.6, "1": 0.2}]
+    slow = [{"0": 0.6, "4": 0.15}, {"s2": 0.6, "s4": 0.15}, {"3": 0.75, "1": 0.1}]
     if not quick:
         slow += [{"1": 0.6}, {"s0": 0.6, "s2": 0.7}, {"0": 0.3, "2": 0.6, "4": 0.25}, {"4": 0.35, "s4": 0.15}, {"2": 1.1}, {"s0": 1.1, "4": 0.15},
                  {"0": 0.55, "1": 0.55, "2": 0.55, "3": 0.55}, {"s4": 0.35}, {"1": 0.6, "s2": 0.6, "4": 0.12, "s4": 0.12}]
